@@ -80,8 +80,10 @@ class TrSelf(U.Tr):
             v = self.fresh('t')
             binds.append((v, f"(iso_{n.attr} {env['self'].text})"))
             return E(v, 'num')
-        if isinstance(n, ast.Call) and isinstance(n.func, ast.Name) and n.func.id in U.FUNCS and n.args and is_data_col(n.args[0]):
+        if isinstance(n, ast.Call) and isinstance(n.func, ast.Name) and n.func.id in U.FUNCS and n.args and \
+                (is_data_col(n.args[0]) or (isinstance(n.args[0], ast.Name) and env.get(n.args[0].id, E('', '')).ty == 'col')):
             col = is_data_col(n.args[0])
+            coltext = f"({col} {env['self'].text})" if col else env[n.args[0].id].text
             x = self.fresh('x')
             inner = ast.Call(func=n.func, args=[ast.Name(id=x, ctx=ast.Load())] + n.args[1:], keywords=n.keywords)
             env2 = dict(env); env2[x] = E(x, 'num')
@@ -95,7 +97,7 @@ class TrSelf(U.Tr):
                     raise Unsupported('column argument used outside the conversion call')
             binds.extend(outer)
             v = self.fresh('col')
-            binds.append((v, f"(conv_col (fun {x} => {call_c}) ({col} {env['self'].text}))"))
+            binds.append((v, f"(conv_col (fun {x} => {call_c}) {coltext})"))
             return E(v, 'col')
         if isinstance(n, ast.Attribute) and isinstance(n.value, ast.Name) and env.get(n.value.id, E('', '')).ty == 'iso' and n.attr not in FIELDS:
             raise Unsupported(f"self.{n.attr}")
